@@ -5,7 +5,7 @@ from .. import common
 from .. import fam_pipeline as fp
 from .. import pipeline as pl
 
-THEOREMS = ["C02.rewire_only_target", "C02.performer_skeleton", "C02.modify_skeleton"]
+THEOREMS = ["C02.rewire_only_target", "C02.performer_skeleton", "C02.modify_skeleton", "C02.quantize_skeleton"]
 
 
 def run(ctx):
